@@ -65,6 +65,7 @@ F_RESERVED = "C12-reserved-names"
 F_PREFIX = "C12-prefix-of-parent-options"
 F_PARENT_DEST = "C12-subcommand-name-is-parent-dest"
 F_PRIVATE_OPT = "C12-private-optional"
+F_STRDEF = "C12-string-default-reparsed"
 F_ENUM_CLASH = "C12-namespace-member-name-unconverted"
 CLASH = {"items", "keys", "values", "get", "pop", "update", "clone", "as_dict"}
 
@@ -92,13 +93,24 @@ TYPES = {
     "optlit": ('Optional[Literal["u", "v"]]', [("null", None, "None", None), ("u", "u", "'u'", "str:'u'"), ("v", "v", "'v'", "str:'v'")]),
     "optdict": ("Optional[Dict[str, int]]", [("null", None, "None", None), ('{"a": 1}', {"a": 1}, "{'a': 1}", "dict:{a=int:1}"), ("{}", {}, "{}", "dict:{}")]),
     "opttuple": ("Optional[Tuple[int, str]]", [("null", None, "None", None), ('[1, "a"]', [1, "a"], "(1, 'a')", "tuple:[int:1,str:'a']")]),
+    # class-typed and container-of-class-typed parameters (required only): the callee must receive INSTANTIATED objects
+    "widget": ("Widget", [('{"class_path": "Widget", "init_args": {"size": 3}}', {"class_path": "Widget", "init_args": {"size": 3}}, "Widget(size=3)", "obj:Widget(size=3)"),
+                          ("Widget", "Widget", "Widget()", "obj:Widget(size=1)"),
+                          ('{"class_path": "BigWidget", "init_args": {"size": 2, "extra": 4}}', {"class_path": "BigWidget", "init_args": {"size": 2, "extra": 4}}, "BigWidget(2, 4)", "obj:BigWidget(size=2,extra=4)")]),
+    "listwidget": ("List[Widget]", [('[{"class_path": "Widget", "init_args": {"size": 3}}, "BigWidget"]', [{"class_path": "Widget", "init_args": {"size": 3}}, "BigWidget"], "None", "list:[obj:Widget(size=3),obj:BigWidget(size=1,extra=0)]"),
+                                    ("[]", [], "None", "list:[]")]),
+    "dictwidget": ("Dict[str, Widget]", [('{"a": "Widget", "b": {"class_path": "BigWidget", "init_args": {"extra": 9}}}', {"a": "Widget", "b": {"class_path": "BigWidget", "init_args": {"extra": 9}}}, "None", "dict:{a=obj:Widget(size=1),b=obj:BigWidget(size=1,extra=9)}")]),
     "strlist": ("Union[str, List[str]]", [("notes.txt", "notes.txt", "'notes.txt'", "str:'notes.txt'"), ("data.json", "data.json", "'data.json'", "str:'data.json'"),
                                           ("abc", "abc", "'abc'", "str:'abc'")]),
 }
 # files that exist in the working directory while the cases run
+OBJECT_TYPES = ("widget", "listwidget", "dictwidget")       # generated without default only
+# a string default that the type hint could read as something else: used by a finding witness only, never generated
+WITNESS_TYPES = {"intstrdef": ("Union[int, str]", [("zz", "zz", "'1'", "str:'1'")]), "optstrdef": ("Optional[str]", [("zz", "zz", "'null'", "str:'null'")])}
 OPTIONAL_TYPES = ("optint", "optlist", "optlit", "optdict", "opttuple")
 FILES = {"notes.txt": "hello world\n", "count.txt": "42\n", "data.json": '{"injected": true}\n'}
 TYPE_KEYS = list(TYPES)
+TYPES.update(WITNESS_TYPES)
 
 # ordinary names: pairwise prefix-free, none a prefix of two options of a parent parser, none equal to a CLI key
 NAMES = ["alpha", "beta", "gamma", "delta", "omega", "kappa", "sigma", "theta", "zeta", "rho", "nu", "xi",
@@ -120,6 +132,23 @@ class Color(Enum):
     red = 1
     blue = 2
 
+
+class Widget:
+    def __init__(self, size: int = 1):
+        self.size = size
+
+    def canon(self):
+        return "Widget(size=%d)" % self.size
+
+
+class BigWidget(Widget):
+    def __init__(self, size: int = 1, extra: int = 0):
+        self.size = size
+        self.extra = extra
+
+    def canon(self):
+        return "BigWidget(size=%d,extra=%d)" % (self.size, self.extra)
+
 '''
 
 
@@ -135,6 +164,8 @@ def canon(v):
         return "%s:%r" % (type(v).__name__, v)
     if isinstance(v, (list, tuple)):
         return "%s:[%s]" % (type(v).__name__, ",".join(str(canon(x)) for x in v))
+    if hasattr(v, "canon") and not isinstance(v, type):
+        return "obj:" + v.canon()
     if isinstance(v, dict):
         return "dict:{%s}" % ",".join("%s=%s" % (k, canon(x)) for k, x in sorted(v.items()))
     return "obj:" + type(v).__name__
@@ -446,6 +477,14 @@ def build_argv(case, rng, tmp=None):
     path = list(case["path"])
     if ch == "multiconfig":
         return build_multiconfig(case, rng, tmp)
+    if ch == "classconfig":
+        # PATH Class --config {method sections} [constructor positionals] method : the config sits between the class token
+        # and the method token, also for a class WITHOUT constructor parameters
+        sec, pos = full_section(c["init"], case["top"], as_pos, positional_on_argv=True)
+        for m in c["methods"]:
+            mg = case["sub"] if m["name"] == case["method"] else sibling_assignment(rng, m["sig"])
+            sec[m["name"]] = split_given(m["sig"], mg, as_pos)[2]
+        return path + ["--config", config_arg(sec, rng, tmp)] + pos + [case["method"]]
     top_sig = c["sig"] if c["kind"] == "func" else c["init"]
     msig = None
     if c["kind"] == "cls" and c["methods"]:
@@ -501,8 +540,8 @@ def parser_args(parser):
     out = []
     skip = {"_HelpAction", "ActionConfigFile", "_ActionPrintConfig", "ShtabAction", "_ActionSubCommands", "_ActionPrintConfig"}
     for a in parser._actions:
-        if type(a).__name__ in skip or a.dest in ("print_shtab",):
-            continue
+        if type(a).__name__ in skip or a.dest in ("print_shtab",) or type(a).__name__ == "_ActionHelpClassPath" or a.dest.endswith(".help"):
+            continue                         # --NAME.help of a class-typed argument is not a parameter
         req = a.dest in parser.required_args
         d = a.default
         th = getattr(a, "_typehint", None)
@@ -636,7 +675,9 @@ def gen_sig(rng, n, names, extras=True):
     for i in range(n):
         t = rng.choice(TYPE_KEYS)
         has_d = rng.random() < 0.55
-        if t in ("enum", "float", "intstr", "any", "strlist", "optlist", "optlit", "optdict", "opttuple") and names[i] in CLASH:
+        if t in OBJECT_TYPES:
+            has_d = False
+        if t in ("enum", "float", "intstr", "any", "strlist", "optlist", "optlit", "optdict", "opttuple") + OBJECT_TYPES and names[i] in CLASH:
             t = rng.choice(["int", "str", "bool", "optint", "listint", "literal"])      # open finding C12-namespace-member-name-unconverted
         ps.append({"name": names[i], "kind": "ko" if i >= n - n_ko else "pk", "type": t,
                    "default": rng.randrange(len(TYPES[t][1])) if has_d else None})
@@ -770,7 +811,8 @@ def cases_for_tree(rng, tree, per_leaf):
                 m, subs = None, [{}]
             for sub in subs:
                 multi = (bool(path) and len(lv) >= 2) or (c["kind"] == "cls" and len(c["methods"]) >= 2)
-                for ch in ("argv", "config", "mixed") + (("multiconfig",) if multi else ()):
+                class_cfg = c["kind"] == "cls" and c["methods"] and any(visible(p) for mm in c["methods"] for p in mm["sig"])
+                for ch in ("argv", "config", "mixed") + (("multiconfig",) if multi else ()) + (("classconfig",) if class_cfg else ()):
                     case = {"tree": tree, "path": path, "method": m["name"] if m else None, "top": top, "sub": sub,
                             "channel": ch, "as_pos": rng.random() < 0.75}
                     if not negative_safe(case):
@@ -818,6 +860,8 @@ def finding_classes(case):
     if c["kind"] == "cls" and c["methods"] and case.get("method"):
         rel.append(([x for x in c["methods"] if x["name"] == case["method"]][0]["sig"], case["sub"]))
     for sig, given in rel:
+        if any(p["type"] in WITNESS_TYPES and p["default"] is not None and p["name"] not in given for p in named(sig)):
+            out.add(F_STRDEF)
         if any(p["name"] in CLASH and p["type"] in ("enum", "float") for p in named(sig)):
             out.add(F_ENUM_CLASH)
     for p in named(top_sig):
@@ -834,7 +878,9 @@ def finding_classes(case):
         if case["method"] == "config" or any(p["name"] == case["method"] for p in named(c["init"]) if visible(p)):
             out.add(F_PARENT_DEST)
         if case["channel"] != "config":
-            opts = parent_opts + [p["name"] for p in named(c["init"]) if visible(p)]
+            # a class-typed constructor parameter NAME also brings the option --NAME.help into the class parser
+            opts = parent_opts + [p["name"] for p in named(c["init"]) if visible(p)] \
+                + [p["name"] + ".help" for p in named(c["init"]) if visible(p) and p["type"] == "widget"]
             for p in named(msig):
                 if p["name"] in case["sub"] and sum(1 for o in opts if o.startswith(p["name"]) and o != p["name"]) >= 2:
                     out.add(F_PREFIX)
@@ -1000,7 +1046,7 @@ def run_cases(ctx: Ctx, cases, origin, tmp, wide=False):
                               {"kind": "case", "origin": origin, "case": small, "argv": a2, "module": tree_src(small["tree"]), "observed": r2})
         # correspondence (the abbreviation-matching finding is outside the model)
         init_subcommand = sel["kind"] == "cls" and sel["methods"] and any(p["name"] == "subcommand" for p in named(sel["init"]))
-        if model is not None and F_PREFIX not in fc and F_ENUM_CLASH not in fc and not init_subcommand:
+        if model is not None and F_PREFIX not in fc and F_ENUM_CLASH not in fc and F_STRDEF not in fc and not init_subcommand:
             d = corr_diff(case, real, model[i])
             if d is not None:
                 n_bad_corr += 1
@@ -1116,7 +1162,7 @@ def run(ctx: Ctx):
         bad = run_cases(ctx, corpus_cases, "corpus", tmp)
 
         # generated trees
-        n_trees = ctx.budget(150, 1500) * (2 if ctx.search_boost > 1 else 1)
+        n_trees = ctx.budget(85, 900) * (2 if ctx.search_boost > 1 else 1)
         cases = []
         for i in range(n_trees):
             tree = gen_tree(ctx.rng, i)
